@@ -154,6 +154,29 @@ func c09Child(c *drv.Ctx, shard, checks int) (*drv.Stats, *drv.Violation, error)
 		cs := cases[i]
 		return st, &drv.Violation{Property: "C09", Kind: "det-text", What: fmt.Sprintf("[%s] %s\n--- grammar text ---\n%s", variantByName(cs.Variant).Flags(), what, cs.Text), Case: cs}, nil
 	}
+	// 0. cold start: the very first generations of this process run concurrently, so that
+	// whatever the generator builds lazily on first use (tables, parsed templates) is built
+	// while several generations are under way
+	nCold := 4
+	if len(cases) < nCold {
+		nCold = len(cases)
+	}
+	cold := make([]string, nCold)
+	{
+		var wg sync.WaitGroup
+		start := make(chan struct{})
+		for k := 0; k < nCold; k++ {
+			wg.Add(1)
+			go func(k int) {
+				defer wg.Done()
+				<-start
+				o, w := genOnce(cases[k].Text, variantByName(cases[k].Variant))
+				cold[k] = digest(o, w)
+			}(k)
+		}
+		close(start)
+		wg.Wait()
+	}
 	// 1. sequential repeats
 	for i, cs := range cases {
 		v := variantByName(cs.Variant)
@@ -164,6 +187,13 @@ func c09Child(c *drv.Ctx, shard, checks int) (*drv.Stats, *drv.Violation, error)
 			return fail(i, "two sequential generations of the same text differ: "+firstDiff(o1, o2)+" / warnings "+strconv.Quote(w1)+" vs "+strconv.Quote(w2))
 		}
 		digests[i] = digest(o1, w1)
+	}
+	for k := range cold {
+		st.Eval()
+		st.Class("cold_start_concurrent_generations")
+		if cold[k] != digests[k] {
+			return fail(k, "one of the first generations of the process, run concurrently with the other first ones, differs from the sequential result")
+		}
 	}
 	// 2. concurrent generations of the same text on independent trees
 	for i, cs := range cases {
